@@ -59,6 +59,9 @@ class Scenario:
                 import time
                 time.sleep(d)
             pk['on_process_up'] = on_process_up
+        del tasks.EXIT_CB[:]
+        if cfg.get('slow_process_exit'):
+            pk['on_process_exit'] = tasks.slow_exit_cb
         pool = bp.Pool(cfg.get('procs', 2), context=vproc.VPoolContext(),
                        threads=cfg.get('threads', True), **pk)
         self.pool = pool
@@ -279,6 +282,7 @@ class Scenario:
                     (t.name, repr(t.exc)) for t in sched.threads
                     if t.exc is not None and t is not u]
                 self.res['kills'] = list(world.kills)
+                self.res['exit_cb'] = list(tasks.EXIT_CB)
                 self.res['sig_after_acquire'] = list(world.sig_after_acquire)
                 self.res['invoked'] = list(tasks.INVOKED)
                 v = self.cfg['oracle'](self)
@@ -471,6 +475,17 @@ def c08_oracle(sc):
             if b[0] and a != b:
                 return ('a result delivered before terminate() changed: %r '
                         '-> %r' % (b, a))
+    if sc.cfg.get('slow_process_exit'):
+        # one termination signal per worker in these scenarios: the exit
+        # callback it starts runs to its end
+        cb = r.get('exit_cb', ())
+        cut = sorted(set(p for k, p in cb if k == 'begin') -
+                     set(p for k, p in cb if k == 'end'))
+        if cut:
+            return ('worker(s) %r started the exit callback but did not live '
+                    'to finish it (signals sent: %r)' % (cut, r['kills']))
+        if not cb:
+            return 'no exit callback ran although a worker was terminated'
     return None
 
 
